@@ -174,7 +174,7 @@ Definition run_obs (presence : bool) (sg : cstate * option cgen) (w : sched) (fl
             end in
   let '(mi, di) := stale w st' in
   ({| o_result := r; o_missing := mi; o_different := di; o_classes := cls;
-      o_cache_current := cache_hit_c false w st' |}, (st', g')).
+      o_cache_current := cache_hit_c presence w st' |}, (st', g')).
 
 Fixpoint trace (presence : bool) (sg : cstate * option cgen) (h : list hstep) : list hobs :=
   match h with
